@@ -15,6 +15,11 @@ CHECKS.update({
  "C03": ("Unit level: fractional_transfer with symbolic tally >= threshold >= 1 and weights, random_transfer with integer weights and all sample outcomes; per continuing ranking the output weight equals the definition (z3 validity), population and size of the random draw are the transferable unit ballots and tally-threshold. Across rounds: conservation identity on every round of real STV runs.", "§4 C03"),
  "C07": ("Droop proportionality for solid coalitions asked of z3 as an axiom on every path of real STV/IRV runs (fractional and random transfer, simultaneous and one-by-one, all random outcomes).", "§4 C07"),
 })
+CHECKS.update({
+ "C04": ("score_profile_from_rankings/first_place_votes/borda_scores/mentions/score_dict_to_ranking and Plurality/SNTV/Borda constructors run on proxies: symbolic weights, symbolic rational score vectors (shorter/equal/longer than n) and the library's integer vectors whose tie averages run through the real arithmetic; z3 compares every score with the definition term and the winners with the top-m definition.", "§4 C04"),
+ "C11": ("condense_ballots, ==, +, to_*_dict, derived fields and Ballot conversion executed with symbolic weights/scores over colliding contents in every order; z3 decides per-content sums and whether == agrees with content-map equality in both directions. Immutability, duplicate candidates, float conversion samples and eq/hash consistency have no symbolic input and are evaluated directly (labelled so).", "§4 C11"),
+ "C12": ("remove_cand (profile/tuple/single ballot x condense x leave_zero x every removal subset incl. an absent name), add_missing_cands, expand_tied_ballot, resolve_profile_ties and cleaning.* executed with symbolic weights; per resulting content z3 compares the summed weight with the spec image; expansion checked against all linear extensions and first-place/Borda/pairwise totals.", "§4 C12"),
+})
 NOT_APPLICABLE = {}
 def main():
     props = [json.loads(l)["id"] for l in open(os.path.join(ROOT, "properties.jsonl"))]
